@@ -56,22 +56,38 @@ Section State.
     intros W hi a W2 hi2 [[H1 H2] H3] Hle HW. split; [lia|]. intro Hin. destruct (HW a Hin); [auto|lia].
   Qed.
 
-  Lemma pd_tr : forall FP h W h2 W2 a,
-      St h W -> Tr FP h W h2 W2 -> incl FP W -> PD W (List.length h) a ->
+  (* footprints: cells that existed as structure cells, or cells allocated later *)
+  Definition FPok (h : heap) (W FP : list addr) : Prop := forall x, In x FP -> In x W \/ List.length h <= x.
+
+  Lemma fpok_incl : forall h W FP, incl FP W -> FPok h W FP.
+  Proof. intros h W FP Hi x Hx. left. apply Hi. exact Hx. Qed.
+
+  Lemma pd_tr_g : forall FP h W h2 W2 a,
+      St h W -> Tr FP h W h2 W2 -> FPok h W FP -> PD W (List.length h) a ->
       get h2 a = get h a /\ PD W2 (List.length h2) a.
   Proof.
     intros FP h W h2 W2 a HS [L A N S] Hi HP. split.
-    - destruct HP as [[H1 H2] H3]. apply S; auto.
+    - destruct HP as [[H1 H2] H3]. apply S; auto. intro Hin. destruct (Hi a Hin); [auto|lia].
     - eapply pd_mono; eauto.
+  Qed.
+
+  Lemma pd_tr : forall FP h W h2 W2 a,
+      St h W -> Tr FP h W h2 W2 -> incl FP W -> PD W (List.length h) a ->
+      get h2 a = get h a /\ PD W2 (List.length h2) a.
+  Proof. intros. eapply pd_tr_g; eauto. apply fpok_incl. auto. Qed.
+
+  Lemma diso_tr_g : forall FP h W h2 W2 v v',
+      St h W -> Tr FP h W h2 W2 -> FPok h W FP ->
+      DIso h0 v (PD W (List.length h)) h v' -> DIso h0 v (PD W2 (List.length h2)) h2 v'.
+  Proof.
+    intros FP h W h2 W2 v v' HS HT Hi HD. eapply diso_stable; [exact HD|].
+    intros x Hx. eapply pd_tr_g; eauto.
   Qed.
 
   Lemma diso_tr : forall FP h W h2 W2 v v',
       St h W -> Tr FP h W h2 W2 -> incl FP W ->
       DIso h0 v (PD W (List.length h)) h v' -> DIso h0 v (PD W2 (List.length h2)) h2 v'.
-  Proof.
-    intros FP h W h2 W2 v v' HS HT Hi HD. eapply diso_stable; [exact HD|].
-    intros x Hx. eapply pd_tr; eauto.
-  Qed.
+  Proof. intros. eapply diso_tr_g; eauto. apply fpok_incl. auto. Qed.
 
   (* ---- a write to a structure cell *)
   Lemma st_write : forall h W a h2,
